@@ -3,7 +3,7 @@ GROUP = "config"
 EXTRACTS = ["Config"]
 HARNESS = [("config", ["c35"])]
 FIDS = [3501, 3502]
-LEVEL = "partial"
+LEVEL = "proof"
 RULE = ("harness/src/bin/config.rs: JSON texts generated together with their decoded description - state root, node count, node "
         "length, total node length and index count at cap-1/cap/cap+1 (plain, \\u-escaped 6x, mixed multi-byte strings), raw "
         "length at 8 MiB-1/8 MiB/+1/+2 (whitespace or ignored-member padding; valid, over-cap and non-JSON content), escaped "
